@@ -70,6 +70,15 @@ def generate(rng, tier):
                 op['out'][rng.randrange(2)] = None
             if nin == 2 and rng.random() < 0.25:
                 op['scalar_second'] = rng.choice([2, 0.5, -1])
+            elif nin == 2 and kind != 'power' and rng.random() < 0.12:
+                # second operand: a plain array of the element's shape but of
+                # ANOTHER dtype (seed z17) -- NumPy promotes, so must odl
+                op['foreign_second'] = [rng.choice(
+                    ['float64', 'float32', 'complex128', 'int64', 'float16',
+                     'int8', 'complex64']), rng.getrandbits(16)]
+                op['ins'][0][1] = rng.choice(['elem', 'tens'])
+                if rng.random() < 0.5:
+                    op['foreign_first'] = True
             elif nin == 2 and kind == 'power' and rng.random() < 0.4:
                 # second operand from the base space (element or plain
                 # array): NumPy broadcasts it against every part
@@ -424,6 +433,17 @@ class Run(object):
         r_in = [self.stores[s].handle(hk) for s, hk in ins]
         if 'scalar_second' in op and len(ins) == 2:
             m_in[1] = r_in[1] = op['scalar_second']
+        elif 'foreign_second' in op and len(ins) == 2:
+            fdt, fseed = op['foreign_second']
+            if np.dtype(fdt) == m_in[0].dtype:
+                raise Reject('foreign operand of the same dtype')
+            g = np_rng('foreign', fseed)
+            far = (g.standard_normal(m_in[0].shape) * 3).astype(fdt)
+            m_in[1], r_in[1] = far, far.copy()
+            if op.get('foreign_first'):
+                m_in.reverse()
+                r_in.reverse()
+            self.ctx.fired('foreign-dtype-array-operand')
         kw = {}
         if op.get('dtype'):
             kw['dtype'] = op['dtype']
